@@ -164,7 +164,7 @@ PROPERTY_INFO = {'C04': {'level': 'model_checking',
                         'involves_unpublished / involves_protected) on a nested class built with the real cppparser constructors, '
                         'of the source classification of included files (find_include over a table-driven file system) and of '
                         'the command-file parsing, all lowered from /repo and driven with symbolic gate inputs',
-         'outside': 'how _vis gets stamped on declarations by the grammar and the preprocessor (__published, '
+         'outside': 'the type predicates the gates consult (TypeManager::involves_protected / involves_rvalue_reference and InterrogateBuilder::in_ignoreinvolved(CPPType *) are cut and answer symbolically in the gate harnesses; seed c04r3b, which breaks in_ignoreinvolved itself, is an open miss); how _vis gets stamped on declarations by the grammar and the preprocessor (__published, '
                     '__begin_publish); _explicit_files / the command-line handling that makes a named file S_local; '
                     'define_method member filters; the get_type bookkeeping around define_struct_type (forcetype / ignoretype '
                     'lookup by name, typedef unwrapping); gates that need the type graph (scan_function, scan_typedef_type, '
